@@ -7,6 +7,7 @@ import (
 	"bytes"
 	"compress/flate"
 	"context"
+	"crypto/tls"
 	"encoding/base64"
 	"errors"
 	"fmt"
@@ -39,6 +40,8 @@ type HTTPReq struct {
 	FailWriteAfter int `json:"fail_write_after,omitempty"`
 	// BodyDelayMs > 0: the body arrives late: the first Read of the body blocks that long (a slow upload).
 	BodyDelayMs int `json:"body_delay_ms,omitempty"`
+	// TLS: the request arrived over TLS (http.Request.TLS is set)
+	TLS bool `json:"tls,omitempty"`
 }
 
 type delayedBody struct {
@@ -129,6 +132,9 @@ func DoOpt(h http.Handler, r HTTPReq, o Opt) (rep Reply) {
 	}
 	req.Body = io.NopCloser(strings.NewReader(r.Body))
 	req.ContentLength = int64(len(r.Body))
+	if r.TLS {
+		req.TLS = &tls.ConnectionState{HandshakeComplete: true, Version: tls.VersionTLS13}
+	}
 	if r.BodyDelayMs > 0 {
 		req.Body = &delayedBody{r: strings.NewReader(r.Body), delay: time.Duration(r.BodyDelayMs) * time.Millisecond}
 	}
